@@ -29,11 +29,12 @@ Content(d, k) == (CHOOSE e \in d : e[1] = k)[2]
 
 \* selections are evaluated on the files present, with find()'s semi-open overlap semantics
 Sels == {<<"all", 0, 0>>, <<"period", 0, 1>>, <<"period", 1, T>>, <<"period", 1, 2>>} \cup {<<"tag", g, 0>> : g \in Tags}
-        \cup {<<"first", 0, 0>>}
+        \cup {<<"first", 0, 0>>, <<"emptylist", 0, 0>>}
 Less(a, b) == a[1] < b[1] \/ (a[1] = b[1] /\ (a[2] < b[2] \/ (a[2] = b[2] /\ a[3] < b[3])))
 Sel(d, s) == CASE s[1] = "all" -> Keys(d)
                [] s[1] = "period" -> {k \in Keys(d) : k[1] < s[3] /\ k[1] + k[2] >= s[2]}
                [] s[1] = "tag" -> {k \in Keys(d) : k[3] = s[2]}
+               [] s[1] = "emptylist" -> {}                       \* an explicit but EMPTY file list selects nothing
                [] OTHER -> {k \in Keys(d) : \A j \in Keys(d) : k = j \/ Less(k, j)}       \* explicit list: the first file
 
 Init == dx = {} /\ dy = {} /\ hist = <<>>
@@ -55,7 +56,7 @@ Move(S, s, copy) ==
            chosen == Sel(src, s)
            tgt(k) == Proj(Lay(D), k)
            targets == {tgt(k) : k \in chosen}
-       IN /\ chosen # {}
+       IN /\ (chosen # {} \/ s[1] = "emptylist")              \* (a period / filter that finds nothing raises NoFilesError)
           /\ \E pick \in [targets -> Contents] :
                 /\ \A t \in targets : pick[t] \in {Content(src, k) : k \in {j \in chosen : tgt(j) = t}}
                 /\ LET newdst == {e \in dst : e[1] \notin targets} \cup {<<t, pick[t]>> : t \in targets}
@@ -69,7 +70,7 @@ Move(S, s, copy) ==
                                                                       /\ Content(Disk(S), a) # Content(Disk(S), b)])
 
 Delete(F, s, dry) ==
-    /\ Room /\ Sel(Disk(F), s) # {}
+    /\ Room /\ (Sel(Disk(F), s) # {} \/ (s[1] = "emptylist" /\ Disk(F) # {}))
     /\ SetDisk(F, IF dry THEN Disk(F) ELSE {e \in Disk(F) : e[1] \notin Sel(Disk(F), s)})
     /\ hist' = Append(hist, [op |-> "delete", f |-> F, id |-> <<0, 0, 0>>, c |-> 0, sel |-> s, flag |-> dry,
                               dx |-> dx', dy |-> dy', collide |-> FALSE])
